@@ -36,7 +36,7 @@ def ShiftOk (env : Env) (g : Gss) (F : Nat) (sh : Nat × Nat) : Prop :=
     Action.shift sh.2 ∈ env.t.cell hd.state tk.kind
 
 def AccOk (env : Env) (g : Gss) (h : Nat) : Prop :=
-  ∃ (hd : Head) (a : Nat), g.heads[h]? = some hd ∧ Action.accept ∈ env.t.cell hd.state a
+  ∃ (hd : Head) (tk : Tok), g.heads[h]? = some hd ∧ hd.tok = some tk ∧ Action.accept ∈ env.t.cell hd.state tk.kind
 
 theorem tok_isSome_ext {hd hd' : Head} (ht : ∀ tk, hd.tok = some tk → hd'.tok = some tk)
     (h : hd.tok.isSome = true) : hd'.tok.isSome = true := by
@@ -77,9 +77,9 @@ theorem ShiftOk.ext {env : Env} {g g' : Gss} {F : Nat} {sh : Nat × Nat} (hx : E
   exact ⟨hd', tk, hhd', ht' tk htk, by rw [hf', hF], by rw [hs']; exact hm⟩
 
 theorem AccOk.ext {env : Env} {g g' : Gss} {h : Nat} (hx : Ext g g') (ha : AccOk env g h) : AccOk env g' h := by
-  obtain ⟨hd, a, hhd, hm⟩ := ha
-  obtain ⟨hd', hhd', hs', _, _⟩ := hx.heads _ hd hhd
-  exact ⟨hd', a, hhd', by rw [hs']; exact hm⟩
+  obtain ⟨hd, tk, hhd, htk, hm⟩ := ha
+  obtain ⟨hd', hhd', hs', _, ht'⟩ := hx.heads _ hd hhd
+  exact ⟨hd', tk, hhd', ht' tk htk, by rw [hs']; exact hm⟩
 
 /-! ## sorted maps: membership after insertion -/
 
